@@ -147,7 +147,7 @@ def check_prims(ctx, rep):
         q = pathlib.Path(*rw)   # the class the code uses is the posix one here
         cmp("pathlib.Path is posix", rw, (list(q.parts), q.is_absolute(), q.anchor), (list(p.parts), p.is_absolute(), p.anchor))
     # ---------------- later waves (each guarded by the presence of its dispatcher entry)
-    for extra in (_check_stat, _check_re):
+    for extra in (_check_stat, _check_re, _check_buffer):
         extra(model, vlib, cmp, rng)
     # ---------------- constants of other modules inlined by the translator
     import importlib
@@ -234,3 +234,31 @@ def _check_re(model, vlib, cmp, rng):
     d = {"a": 1, "bc": 2, "": 3, "A": 4}
     for k in ["a", "bc", "", "A", "b", "c", "ab", "aa", "B"]:
         cmp("dict[str]", k, _res(model.call("prim_re", [3, [], [ord(c) for c in k]])), _py(lambda: d[k]))
+
+
+def _check_buffer(model, vlib, cmp, rng):
+    """py7zr.io.Buffer as the translator models it for the AES methods: the bytes of its view; add = append,
+    set = replace, reset = empty, len() = length of the view"""
+    try:
+        from py7zr.io import Buffer
+    except Exception:  # noqa
+        return
+    for _ in range(300):
+        size = rng.choice([1, 16, 17, 48, 4096])
+        b = Buffer(size=size)
+        m = b""
+        cmp("Buffer()", size, (len(b), bytes(b.view)), (0, b""))
+        for _ in range(rng.randrange(1, 12)):
+            op = rng.choice(["add", "add", "set", "reset"])
+            d = bytes(rng.randrange(256) for _ in range(rng.choice([0, 1, 15, 16, 17, 33, 100])))
+            d = rng.choice([d, bytearray(d), memoryview(d)])
+            if op == "add":
+                b.add(d)
+                m = m + bytes(d)
+            elif op == "set":
+                b.set(d)
+                m = bytes(d)
+            else:
+                b.reset()
+                m = b""
+            cmp("Buffer.%s" % op, (size, len(m)), (len(b), bytes(b.view)), (len(m), m))
